@@ -1510,6 +1510,30 @@ func (c *Ctx) seqIndex() {
 						problems = append(problems, "an index that addresses a position yields nothing although the slot is not known to hold nil (a typed nil pointer or other 'empty-looking' value must be returned as it is)")
 					}
 				}
+				// ... and with the option on, a negative index is refused only below -Len and an
+				// oversize one never (every -k with 1 <= k <= Len addresses an element)
+				if want != nil && !pr.le(L, c.intConst(0)) {
+					slotNil := false
+					for _, b := range fn.Blocks {
+						for _, in := range b.Instrs {
+							if ld, ok := in.(*ssa.UnOp); ok && ld.Op == token.MUL {
+								if ia, ok := ld.X.(*ssa.IndexAddr); ok && ia.X == ssa.Value(fn.Params[0]) {
+									if v, known := fa.nonNil(s, ld); known && !v {
+										slotNil = true
+									}
+								}
+							}
+						}
+					}
+					if on, known := c.flagAtom("negidx", "negidx").eval(fa, s); known && on && pr.lt(i, c.intConst(0)) && !slotNil {
+						if !pr.lt(c.plusT(i, L), c.intConst(0)) {
+							problems = append(problems, "with negative indices on, a negative index is refused on a path that does not establish index < -Len (the first element, -Len, must be addressable)")
+						}
+					}
+					if on, known := c.flagAtom("fwdidx", "fwdidx").eval(fa, s); known && on && pr.le(L, i) && !slotNil {
+						problems = append(problems, "with forward indices on, an oversize index is refused although the stack is not empty")
+					}
+				}
 				continue
 			}
 			if want == nil {
